@@ -1,2 +1,74 @@
-(* CorrC24.v — C24 uses the Stream / Backup / Load correspondence of CorrC25. *)
+(* CorrC24.v — correspondence entry point of C24: the Stream / Backup / Load cases of CorrC25
+   (constructor SCase) plus the KVLoader batching of one DB.Load / one KVLoader run
+   (B/Loader.v): from the limits of the target database and the KV sequence (projected to key and
+   value lengths, run-length encoded) the model recomputes the batches handed to the write path. *)
 From Verif Require Export CorrC25.
+From Verif Require Import Bytes Corr CorrSys Loader.
+From Coq Require Import ZArith.
+Open Scope N_scope.
+
+Inductive case :=
+| SCase (c : CorrC25.case)
+(* maxc maxs thr: VerifDBLimits of the target; flush: flushThreshold; runs: (count, (len(key)+8,
+   len(value))) in stream order.  Observed: sends = requests that passed sendToWriteCh (hook
+   sendToWriteCh.beforeSend) during the run, written = the entry counts of the non-empty requests
+   the write path processed, in order (hook persist.wal.request-done), states = for a run
+   driven through the KVLoader API the loader's (len(entries), entriesSize, totalSize) in front
+   of every send (the rejected one included), err = Load / Set / Finish returned ErrTxnTooBig *)
+| LoaderRun (maxc maxs flush thr : Z) (runs : list (Z * (Z * Z))) (sends : N) (written : list Z)
+            (states : option (list (Z * (Z * Z)))) (err : bool).
+
+Definition triple_eqb (a b : Z * (Z * Z)) : bool :=
+  (fst a =? fst b)%Z && (fst (snd a) =? fst (snd b))%Z && (snd (snd a) =? snd (snd b))%Z.
+
+(* branch tags of one run: 500 any; 501 a flush by the count arm; 502 by the size arm; 503 by the
+   total-size arm; 504 more than two batches; 505 an empty batch was sent; 506 a batch was
+   rejected; 507 size arm exactly at the limit (entriesSize + estimate = maxBatchSize); 508 size
+   arm one below the limit did not flush (a batch of size maxBatchSize - 1 was sent); 509 a
+   value at or above the value threshold (estimate counts a pointer); 510 last batch (Finish)
+   holds exactly maxBatchCount - 1 entries; 511 Finish had nothing to send *)
+Section Tags.
+  Variables maxc maxs flush thr : Z.
+  Let est := kv_est thr.
+
+  Fixpoint flush_tags (bs : list (list (Z * Z))) : list N :=
+    match bs with
+    | b :: (((x :: _) :: _) as r) =>
+        (if (maxc <=? blen b + 1)%Z then [501]
+         else if (flush <=? batch_total est kv_vlen b)%Z then [503]
+         else if (maxs <=? batch_size est b + est x)%Z
+              then (if (maxs =? batch_size est b + est x)%Z then [502; 507] else [502])
+              else [])
+        ++ (if (batch_size est b =? maxs - 1)%Z then [508] else [])
+        ++ flush_tags r
+    | b :: r => flush_tags r
+    | [] => []
+    end.
+End Tags.
+
+Definition run_case (c : case) : bool * list N :=
+  match c with
+  | SCase c' => CorrC25.run_case c'
+  | LoaderRun maxc maxs flush thr runs sends written states err =>
+      let kvs := expand_runs runs in
+      let '(bs, rej) := kv_loader_run maxc maxs flush thr kvs in
+      let est := kv_est thr in
+      let all := bs ++ match rej with Some b => [b] | None => [] end in
+      let tr := fun b => (blen b, (batch_size est b, batch_total est kv_vlen b)) in
+      (Bool.eqb (match rej with Some _ => true | None => false end) err
+       && (N.of_nat (length bs) =? sends)
+       && list_eqb Z.eqb (filter (fun n => 0 <? n)%Z (map blen bs)) written
+       && match states with
+          | None => true
+          | Some sts => list_eqb triple_eqb (map tr all) sts
+          end,
+       dedup ([500] ++ flush_tags maxc maxs flush thr all
+              ++ (if (2 <? length bs)%nat then [504] else [])
+              ++ (if existsb (fun b => match b with [] => true | _ => false end) bs then [505] else [])
+              ++ (match rej with Some _ => [506] | None => [] end)
+              ++ (if existsb (fun kv => (thr <=? snd kv)%Z) kvs then [509] else [])
+              ++ (match rej with
+                  | None => if (blen (last bs []) =? maxc - 1)%Z then [510] else []
+                  | _ => [] end)
+              ++ (match kvs with [] => [511] | _ => [] end)) [])
+  end.
